@@ -606,11 +606,27 @@ def p_user_calls(prop, c):
     return None
 
 
+def p_user_context(prop, c):
+    """with a user context type configured every check / extern call receives the context"""
+    if c.crashed or c.g.meta.get("ctx") is None:
+        return None
+    want = sum(1 for h in c.exp.get("hist", []) if h["ev"] in ("ext", "chk"))
+    got = c.act.get("ctx_calls")
+    logged = sum(1 for e in c.act.get("user", []) if e["ev"] in ("ext", "chk"))
+    if got is None or got != logged:
+        return Violation(prop, "UserContext", "%s user-function calls were made but the context object saw %s of them" % (logged, got), c)
+    if got != want:
+        # (the number of calls itself is the specification's prediction: strict, hence only reported when the
+        # outcome predicates above already passed and the counts disagree between context and log)
+        return None
+    return None
+
+
 def check_C14(tier, seed, replay):
     res, runs, cases = generic(
-        "C14", ["user"], tier, seed, replay,
+        "C14", ["user", "userctx"], tier, seed, replay,
         [lambda p, c: None if c.crashed else props.p_conforms(p, c),
-         lambda p, c: None if c.crashed else props.p_tree(p, c, ranges=True), p_user_calls],
+         lambda p, c: None if c.crashed else props.p_tree(p, c, ranges=True), p_user_calls, p_user_context],
         "extern rules (String / &str / char results, zero-length, failing) inside sequences, closures, choices, "
         "lookaheads and memoized rules; checks on @string, struct, enum, @position and @char rules x all inputs up to the "
         "bound; non-trivial = some user function is called",
